@@ -1960,6 +1960,47 @@ class TooManySlicesInFragmentedPicture(ConformanceError):
         )
 
 
+class FragmentSlicesWithoutFragmentedPicture(ConformanceError):
+    """
+    (14.2) A fragment containing picture slices (fragment_slice_count != 0) was
+    encountered before any fragment with fragment_slice_count==0 had started a
+    fragmented picture in the current sequence.
+
+    The (byte_offset, next_bit_offset) offset of the offending fragment's
+    header is included as an argument along with its fragment_slice_count.
+    """
+
+    def __init__(self, this_fragment_offset, fragment_slice_count):
+        self.this_fragment_offset = this_fragment_offset
+        self.fragment_slice_count = fragment_slice_count
+        super(FragmentSlicesWithoutFragmentedPicture, self).__init__()
+
+    def explain(self):
+        return """
+            A picture fragment containing {} slice{} (at bit offset {}) was
+            encountered but no fragmented picture has been started (14.2).
+
+            Every fragmented picture must begin with a picture fragment with
+            fragment_slice_count=0 (containing the transform parameters)
+            before any fragments containing picture slices.
+
+            Was the first fragment of the picture omitted?
+        """.format(
+            self.fragment_slice_count,
+            "" if self.fragment_slice_count == 1 else "s",
+            to_bit_offset(*self.this_fragment_offset),
+        )
+
+    def bitstream_viewer_hint(self):
+        return """
+            To view the offending part of the bitstream:
+
+                {{cmd}} {{file}} --from-offset {} --to_offset {{offset}} --show fragment_parse --hide slice
+        """.format(
+            to_bit_offset(*self.this_fragment_offset)
+        )
+
+
 class FragmentSlicesNotContiguous(ConformanceError):
     """
     (14.2) A fragmented picture must contain every slice in the picture exactly
